@@ -34,7 +34,8 @@ def nat(v):
 
 def content(kind):
     T = _types()
-    return {'nat5': T.NatType(5), 'nat6': T.NatType(6), 'str': T.StringType('x'),
+    return {'nat5': T.NatType(5), 'nat6': T.NatType(6), 'str': T.StringType('x'), 'int-1': T.IntType(-1), 'int-2': T.IntType(-2),
+            'nat0': T.NatType(0), 'natM61': T.NatType(2 ** 61 - 1),
             'pair': T.PairType.from_comb([T.NatType(1), T.StringType('a')])}[kind]
 
 
@@ -239,7 +240,9 @@ def h_join_instr(case):
 
 
 JOIN_CASES = [(ADDR_A, ADDR_A, 'nat5', 'nat5'), (ADDR_A, ADDR_B, 'nat5', 'nat5'), (ADDR_A, ADDR_A, 'nat5', 'nat6'),
-              (ADDR_A, ADDR_B, 'nat5', 'nat6'), (ADDR_A, ADDR_A, 'pair', 'pair'), (ADDR_A, ADDR_A, 'nat5', 'str')]
+              (ADDR_A, ADDR_B, 'nat5', 'nat6'), (ADDR_A, ADDR_A, 'pair', 'pair'), (ADDR_A, ADDR_A, 'nat5', 'str'),
+              # contents that are different values with equal CPython hashes (hash(-1) == hash(-2); 0 and 2^61-1)
+              (ADDR_A, ADDR_A, 'int-1', 'int-2'), (ADDR_A, ADDR_A, 'nat0', 'natM61'), (ADDR_A, ADDR_A, 'int-1', 'int-1')]
 
 
 def job(kind, arg=None):
